@@ -89,9 +89,12 @@ HERE = os.path.abspath(__file__)
 
 def _make_fits(job, img, path):
     from astropy.io import fits
-    dt = np.float32 if job['dtype'] == 'f4' else np.float64
+    dt = DTYPES[job['dtype']]
     bscale = job.get('bscale', 1.0)
-    raw = (img / bscale).astype(dt)
+    if job['dtype'] in INT_DTYPES:
+        raw = np.round(img / bscale).astype(dt)      # mkjob made img an exact multiple of bscale within the dtype's range
+    else:
+        raw = (img / bscale).astype(dt)
     v = job['variant']
     ci = job.get('cube_index', 0)
     if v in ('3d', '4d'):
@@ -110,6 +113,18 @@ def _make_fits(job, img, path):
     if bscale != 1.0 or job.get('bscale_key'):
         hdu.header['BSCALE'] = bscale       # 'present and 1', 'present and != 1', or absent
     hdu.writeto(path, overwrite=True, output_verify='silentfix')
+
+
+DTYPES = dict(f4=np.float32, f8=np.float64, i2=np.int16, i4=np.int32, u1=np.uint8)
+INT_DTYPES = ('i2', 'i4', 'u1')
+
+
+def quantize(img, dtype, bscale):
+    """the physical image an integer FITS file (BITPIX 8/16/32) with this BSCALE can hold: raw integers x BSCALE
+    (integers have no blanks: non-finite pixels become raw 0)"""
+    info = np.iinfo(DTYPES[dtype])
+    raw = np.clip(np.round(np.nan_to_num(img / bscale, nan=0.0, posinf=0.0, neginf=0.0)), info.min, info.max)
+    return raw * bscale
 
 
 def worker_main(jobfile):
@@ -144,6 +159,9 @@ def worker_main(jobfile):
         print(f"START {jid}", flush=True)
         try:
             img = np.load(os.path.join(d, job['img']))
+            # the start method "the application" has chosen (BANE itself decides what its pool uses)
+            import multiprocessing as _mp
+            _mp.set_start_method(job.get('start_method') or 'fork', force=True)
             # a history job re-uses one file name (rewritten with new content) and one output base
             fn = os.path.join(d, job.get('fname') or f"in_{jid}.fits")
             _make_fits(job, img, fn)
@@ -222,10 +240,12 @@ def predict_layout(R, nslice, step1):
 
 
 def mkjob(ctx, img, grid, box, nslice=1, mask=True, variant='2d', dtype='f4', via='mem', cube_index=0, n3=3,
-          bscale=1.0, tag='', bscale_key=False, fname=None, oname=None):
+          bscale=1.0, tag='', bscale_key=False, fname=None, oname=None, start_method=None):
     """job dict for the real code; cores chosen so that realised stripes <= cores"""
     _counter[0] += 1
     jid = _counter[0]
+    if dtype in INT_DTYPES:
+        img = quantize(img, dtype, bscale)
     R = img.shape[0]
     lay = predict_layout(R, nslice, grid[1])
     cores = max(nslice, len(lay))
@@ -235,7 +255,7 @@ def mkjob(ctx, img, grid, box, nslice=1, mask=True, variant='2d', dtype='f4', vi
     np.save(os.path.join(ctx.tmpdir(), name), img)
     return dict(id=jid, img=name, grid=list(grid), box=list(box), nslice=nslice, cores=cores, mask=bool(mask),
                 variant=variant, dtype=dtype, via=via, cube_index=cube_index, n3=n3, bscale=bscale, tag=tag,
-                bscale_key=bool(bscale_key), fname=fname, oname=oname, predicted=lay, _img=img)
+                bscale_key=bool(bscale_key), fname=fname, oname=oname, start_method=start_method, predicted=lay, _img=img)
 
 
 class Hang(Exception):
@@ -246,7 +266,7 @@ JOB_TIMEOUT = 10.0   # seconds without progress before the child is killed (a BA
 MAX_HANG_FRACTION = 0.15
 
 
-def _run_chunk(d, chunk):
+def _run_chunk(d, chunk, job_timeout=None):
     """run one chunk in a child; returns (started ids, done ids, stderr tail, timed_out)"""
     import signal
     spec = dict(repo=common.repo_path(), dir=d,
@@ -269,7 +289,8 @@ def _run_chunk(d, chunk):
     threading.Thread(target=pump, daemon=True).start()
     started, done, timed_out = [], set(), False
     last = time.time()
-    limit = JOB_TIMEOUT + 35.0      # imports of astropy/scipy in the child
+    jt = job_timeout or JOB_TIMEOUT
+    limit = jt + 35.0      # imports of astropy/scipy in the child
     while True:
         try:
             line = q.get(timeout=1.0)
@@ -281,7 +302,7 @@ def _run_chunk(d, chunk):
         if line is None:
             break
         last = time.time()
-        limit = JOB_TIMEOUT
+        limit = jt
         w = line.split()
         if len(w) == 2 and w[0] == 'START':
             started.append(int(w[1]))
@@ -299,7 +320,7 @@ def _run_chunk(d, chunk):
     return started, done, err, timed_out, p.returncode
 
 
-def run_jobs(ctx, jobs):
+def run_jobs(ctx, jobs, job_timeout=None):
     """run the jobs in a child process under a watchdog; returns {id: result dict with arrays}.
     A run that does not return is C07's subject (termination): it is recorded as status 'hang', counted,
     and not judged here; too many of them make the check unusable (Hang -> exit 2)."""
@@ -310,7 +331,7 @@ def run_jobs(ctx, jobs):
     pending = list(jobs)
     while pending:
         chunk, pending = pending[:80], pending[80:]
-        started, done, err, timed_out, rc = _run_chunk(d, chunk)
+        started, done, err, timed_out, rc = _run_chunk(d, chunk, job_timeout)
         hung = [s for s in started if s not in done]
         if timed_out:
             for h in hung:
@@ -508,7 +529,7 @@ def raw_case_of(job, extra=None):
     c = dict(shape=list(img.shape), grid=job['grid'], box=job['box'], nslice=job['nslice'], cores=job['cores'],
              mask=job['mask'], variant=job['variant'], dtype=job['dtype'], via=job['via'],
              cube_index=job['cube_index'], n3=job['n3'], bscale=job['bscale'], bscale_key=job.get('bscale_key', False),
-             tag=job['tag'],
+             start_method=job.get('start_method'), tag=job['tag'],
              image=[common.f2h(v) if math.isfinite(v) else ('n' if v != v else ('pinf' if v > 0 else 'ninf'))
                     for v in img.ravel().tolist()])
     if extra:
@@ -525,7 +546,8 @@ def img_from_case(c):
 def job_from_case(ctx, c, img=None):
     return mkjob(ctx, img_from_case(c) if img is None else img, c['grid'], c['box'], nslice=c['nslice'],
                  mask=c['mask'], variant=c['variant'], dtype=c['dtype'], via=c['via'], cube_index=c['cube_index'],
-                 n3=c.get('n3', 3), bscale=c.get('bscale', 1.0), tag=c.get('tag', ''), bscale_key=c.get('bscale_key', False))
+                 n3=c.get('n3', 3), bscale=c.get('bscale', 1.0), tag=c.get('tag', ''), bscale_key=c.get('bscale_key', False),
+                 start_method=c.get('start_method'))
 
 
 # ---------- Spec checks on one run ----------------------------------------------------------------
@@ -555,7 +577,8 @@ def spec_single(ctx, job, res):
         return False
     if res.get('status') != 'ok':
         ctx.fail('spec', case_of(job), f"BANE did not produce maps: {res.get('status')} {res.get('error', '')}",
-                 sig('no-maps', job, status=res.get('status')))
+                 sig('no-maps', job, status=res.get('status'), integer_raw=bool(job['dtype'] in INT_DTYPES),
+                     bscale_card=bool(job['bscale'] != 1.0 or job.get('bscale_key'))))
         return False
     bkg, rms = maps_of(job, res)
     if bkg is None:
@@ -837,9 +860,11 @@ def metamorphic(ctx, base_jobs, results):
             e = round(math.log2(sc0)) - 6
             todo.append(('scale', 2.0 ** -e, img * 2.0 ** -e))
         for kind, par, im2 in todo:
+            isint = job['dtype'] in INT_DTYPES
             j2 = mkjob(ctx, im2, job['grid'], job['box'], nslice=job['nslice'], mask=job['mask'], variant=job['variant'],
-                       dtype=job['dtype'], via=(job['via'] if job['via'] != 'cli' else 'mem'), cube_index=job['cube_index'],
-                       n3=job['n3'], bscale=job['bscale'], bscale_key=job.get('bscale_key', False), tag=f"{kind}:{par}")
+                       dtype=('f8' if isint else job['dtype']), via=(job['via'] if job['via'] != 'cli' else 'mem'),
+                       cube_index=job['cube_index'], n3=job['n3'], bscale=(1.0 if isint else job['bscale']),
+                       bscale_key=(False if isint else job.get('bscale_key', False)), tag=f"{kind}:{par}")
             derived.append((job, kind, par, j2))
     res2 = run_jobs(ctx, [d[3] for d in derived])
     bad = []
@@ -1055,10 +1080,59 @@ def option_matrix(ctx):
                     kw.update(n3=2, cube_index=1)
                 const = (n % 3 == 0)
                 img = np.full((14, 12), 6.0) if const else lattice_noise(g, 14, 12) + ctx.rng.choice([6.0, 100.0, -37.5])
+                dtype = ('f4', 'f8', 'i2', 'f4', 'i4', 'u1')[n % 6]      # float and integer (BITPIX 8/16/32) raw data
+                if dtype in INT_DTYPES and bmode == 'other':
+                    kw['bscale'] = (2.5, 0.5, 4.0)[n % 3]
                 jobs.append(mkjob(ctx, img, (4, 4), (8, 6), nslice=1 + n % 2, mask=True, variant=variant,
-                                  dtype=('f4', 'f8')[n % 2], via=via, tag=f"matrix {bmode}/{via}/{variant}", **kw))
+                                  dtype=dtype, via=via, tag=f"matrix {bmode}/{via}/{variant}/{dtype}", **kw))
                 feats.append(dict(const=True) if const else dict(offset=100.0))
     return jobs, feats
+
+
+# ---------- environment: the multiprocessing start method chosen by the calling application ---------------------
+
+def start_method_cases(ctx):
+    """the caller has done multiprocessing.set_start_method('spawn' | 'forkserver') before calling BANE (applications that
+    mix threads and processes do): the maps must obey the Spec and be bit-identical to the run under the default"""
+    g = np_rng(ctx)
+    rng = ctx.rng
+    protos = [
+        dict(img=np.full((12, 10), 3.0), nslice=2, bscale=2.5, via='mem', variant='2d', kw={}),
+        dict(img=lattice_noise(g, 14, 12) + rng.choice([100.0, -37.5]), nslice=rng.choice([1, 2]), bscale=rng.choice([0.5, 4.0]),
+             via='files', variant='2d', kw={}),
+        dict(img=lattice_noise(g, 12, 12) + 6.0, nslice=2, bscale=1.0, via='compressed', variant='3d', kw=dict(n3=2, cube_index=1)),
+    ]
+    for sm in ('spawn', 'forkserver'):
+        jobs, twins = [], []
+        for pr in protos:
+            kw = dict(nslice=pr['nslice'], mask=True, variant=pr['variant'], dtype='f4', via=pr['via'], bscale=pr['bscale'], **pr['kw'])
+            jobs.append(mkjob(ctx, pr['img'], (4, 4), (8, 6), tag=f"start method {sm}", start_method=sm, **kw))
+            twins.append(mkjob(ctx, pr['img'], (4, 4), (8, 6), tag="start method default (twin)", **kw))
+        # on a tree that honours the chosen method the workers are spawned (seconds each): own chunk, longer watchdog
+        res = run_jobs(ctx, jobs, job_timeout=90.0)
+        rt = run_jobs(ctx, twins)
+        ok = []
+        for j, t in zip(jobs, twins):
+            r1, r2 = res.get(j['id']), rt.get(t['id'])
+            ctx.count('start-method-' + sm)
+            ctx.case(dict(op='start-method', method=sm, shape=list(j['_img'].shape), bscale=j['bscale'], via=j['via'], nslice=j['nslice']),
+                     nontrivial_key=('start-method', sm, j['bscale'], j['via'], ctx.seed))
+            if not r1 or not r2 or 'hang' in (r1.get('status'), r2.get('status')):
+                continue
+            spec_single(ctx, j, r1)
+            if r1.get('status') == 'ok':
+                ok.append(j)
+            for w in ('bkg', 'rms', 'file_bkg', 'file_rms'):
+                if (w in r1) != (w in r2) or (w in r1 and not np.array_equal(r1[w], r2[w], equal_nan=True)):
+                    a, b = r1.get(w), r2.get(w)
+                    det = ''
+                    if a is not None and b is not None and a.shape == b.shape:
+                        idx = tuple(int(i) for i in np.argwhere(~((a == b) | (np.isnan(a) & np.isnan(b))))[0])
+                        det = f": at {idx} {a[idx]!r} under {sm} vs {b[idx]!r} under the default"
+                    ctx.fail('spec', case_of(j), f"{w} depends on the multiprocessing start method chosen by the caller ({sm})" + det,
+                             dict(what='start-method-dependence', method=sm, site='AegeanTools/BANE.py:filter_mc_sharemem'))
+                    break
+        correspond(ctx, ok, res, [{}] * len(ok))
 
 
 # ---------- regenerated arithmetic (Gen.C06) vs the Python it was translated from ----------------------------
@@ -1222,6 +1296,7 @@ def evaluate(ctx, jobs, feats, with_model=True, meta_fraction=0.0):
         good = spec_single(ctx, job, res)
         ctx.count('variant-' + job['variant'])
         ctx.count('via-' + job['via'])
+        ctx.count('dtype-' + job['dtype'] + ('+bscale' if (job['bscale'] != 1.0 or job.get('bscale_key')) else ''))
         ctx.count('options:' + ('3d4d' if job['variant'] != '2d' else '2d') + '/bscale-' +
                   ('other' if job['bscale'] != 1.0 else 'one' if job.get('bscale_key') else 'absent') + '/' + job['via'])
         ctx.count(f"stripes-{len(job.get('_stripes', job['predicted']))}")
@@ -1270,7 +1345,9 @@ def random_jobs(ctx, n, stripes_bias=False):
         if via == 'cli':
             grid = (grid[0], grid[0])
             box = (max(box[0], grid[0]), max(box[1], grid[0]))
-        dtype = rng.choice(['f4', 'f4', 'f8'])
+        dtype = rng.choice(['f4', 'f4', 'f8', 'i2', 'i4', 'u1'])
+        if dtype in INT_DTYPES and bmode == 'other' and rng.random() < 0.5:
+            kw['bscale'] = rng.choice([2.5, 0.1, -3.0])     # integer raw data x BSCALE is computed in float64: any factor is exact enough
         jobs.append(mkjob(ctx, img, grid, box, nslice=nslice, mask=(rng.random() < 0.8), variant=variant, dtype=dtype,
                           via=via, **kw))
         feats.append(feat)
@@ -1288,6 +1365,7 @@ def run(ctx):
         run_history(ctx, api, steps)
     clip_cases(ctx, 150 if ctx.quick else 1500)
     gen_cases(ctx, 300 if ctx.quick else 3000)
+    start_method_cases(ctx)
     n = 70 if ctx.quick else 600
     done = 0
     while done < n:
@@ -1352,6 +1430,20 @@ def replay(ctx, rec):
                 ctx.fail('corr', c, f"implementation {(m0, s0)} vs model {(mm, ms)}", dict(what='sigmaclip'))
         return
     job = job_from_case(ctx, c)
+    if c.get('start_method'):
+        res = run_jobs(ctx, [job], job_timeout=90.0)
+        twin = job_from_case(ctx, dict(c, start_method=None))
+        rt = run_jobs(ctx, [twin])
+        r1, r2 = res.get(job['id']), rt.get(twin['id'])
+        ctx.case(dict(op='start-method', method=c['start_method']))
+        if r1 and r2:
+            spec_single(ctx, job, r1)
+            for w in ('bkg', 'rms', 'file_bkg', 'file_rms'):
+                if (w in r1) != (w in r2) or (w in r1 and not np.array_equal(r1[w], r2[w], equal_nan=True)):
+                    ctx.fail('spec', c, f"{w} depends on the multiprocessing start method chosen by the caller ({c['start_method']})",
+                             dict(what='start-method-dependence', method=c['start_method'], site='AegeanTools/BANE.py:filter_mc_sharemem'))
+                    break
+        return
     results = evaluate(ctx, [job], [{}], with_model=ctx.driver_ok, meta_fraction=0.0)
     if c.get('relation'):
         # re-run exactly the recorded relation
